@@ -420,6 +420,46 @@ def gen_case(rng, force: Optional[str] = None) -> Case:
                 rng.choice([b"\n", b"\n", b"\r\n"]))
 
 
+WILD = ["V3", "V0", "R-mismatch", "filter", "stmf-strf", "cfm-unknown", "cfm-wrong-class", "strf-undefined",
+        "P0", "length0", "length4", "identity-override"]
+
+
+def gen_wild_case(rng, kind: str) -> Case:
+    """Encrypt dictionaries outside the property's domain: exercised on the model/implementation tie only
+    (handler selection, revision check, crypt-filter checks, P = 0, zero-length keys)."""
+    force = {"stmf-strf": "r4aes", "cfm-unknown": rng.choice(["r4aes", "r5"]), "cfm-wrong-class": rng.choice(["r4aes", "r6"]),
+             "strf-undefined": rng.choice(["r4rc4", "r5"]), "length0": "r3", "length4": "r3",
+             "identity-override": "r4aes"}.get(kind)
+    case = gen_case(rng, force)
+    cfg = case.cfg
+    if kind == "V3":
+        cfg.overrides = {"V": 3}
+    elif kind == "V0":
+        cfg.overrides = {"V": None}
+    elif kind == "R-mismatch":
+        cfg.overrides = {"R": {2: 4, 3: 5, 4: 3, 5: 4, 6: 4}[cfg.R]}
+    elif kind == "filter":
+        cfg.overrides = {"Filter": "Adobe.PubSec"}
+    elif kind == "stmf-strf":
+        cfg.overrides = {"StmF": "Identity"}
+    elif kind == "cfm-unknown":
+        cfg.overrides = {"CF": {cfg.cf_name: {"CFM": "None"}}}
+    elif kind == "cfm-wrong-class":
+        cfg.overrides = {"CF": {cfg.cf_name: {"CFM": "AESV3" if cfg.V == 4 else "AESV2"}}}
+    elif kind == "strf-undefined":
+        cfg.overrides = {"StmF": "Nope", "StrF": "Nope"}
+    elif kind == "P0":
+        cfg.overrides = {"P": 0}
+    elif kind == "length0":
+        cfg.overrides = {"Length": 0}
+    elif kind == "length4":
+        cfg.overrides = {"Length": 4}
+    elif kind == "identity-override":
+        cfg.overrides = {"CF": {"Identity": {"CFM": "AESV2"}}, "StmF": "Identity", "StrF": "Identity"}
+    case.passwords = [cfg.user, cfg.effective_owner() + "!"]
+    return case
+
+
 def open_impl(data: bytes, pw: str, caching: bool = True):
     from pdfminer.pdfdocument import PDFDocument
     from pdfminer.pdfparser import PDFParser
@@ -707,17 +747,17 @@ def replay(ctx: C.Ctx, doc: Dict[str, Any], from_corpus: bool = False) -> None:
     if "cfg" in inp:
         case = Case.from_json(inp)
         run_case(ctx, case, True, "corpus" if from_corpus else "replay", shrink=False)
-        model_check(ctx, [case])
+        model_check(ctx, [case], with_rc4=False)
     elif "sample" in inp:
         run_samples(ctx)
 
 
-def model_check(ctx: C.Ctx, cases: List[Case]) -> None:
+def model_check(ctx: C.Ctx, cases: List[Case], with_rc4: bool = True) -> None:
     """Correspondence model vs implementation - filled in by c10_model (needs the compiled driver)."""
     if ctx.driver is None:
         return
     from harness import c10_model
-    c10_model.check(ctx, cases)
+    c10_model.check(ctx, cases, with_rc4)
 
 
 def run(ctx: C.Ctx) -> None:
@@ -735,4 +775,8 @@ def run(ctx: C.Ctx) -> None:
         run_case(ctx, case, do_text=(i % 4 == 0), branch="doc")
         if i < ctx.n(24, 200):
             cases.append(case)
+    for i in range(ctx.n(len(WILD), 10 * len(WILD))):
+        w = gen_wild_case(rng, WILD[i % len(WILD)])
+        ctx.branch("wild:" + WILD[i % len(WILD)])
+        cases.append(w)
     model_check(ctx, cases)
